@@ -8,9 +8,11 @@
      C04_bayes_det       det B det A = det C_s det Lambda.
      C04_bayes_identity  (reals) those two facts and positivity give
                          ln N(marg) = ln N(y | theta, x) + ln N(x | mu, Lambda) - ln N(x | a, A).
-   Partial: the two algebraic premises are proved over every MathComp field and C04_bayes_identity takes them as premises over
-   R (no MathComp structure on Coq's R is installed); on every generated input Coq checks them exactly on the numbers at hand
-   (check_bayes bit 3) together with the identity on the implementation's own log-likelihood values (bit 2). *)
+   C04_bayes_identity takes the two algebraic facts as premises; Props/C04r.v (C04_bayes_identity_real) discharges them at R
+   through the MathComp field structure on Coq's reals (Base/Rstruct.v), so the identity holds for real matrices of every
+   dimension with no premise beyond invertibility, symmetry and positive determinants.  On every generated input Coq also checks
+   the exact rational identities on the numbers at hand (check_bayes bit 3) together with the identity on the implementation's
+   own log-likelihood values (bit 2). *)
 From mathcomp Require Import all_ssreflect all_fingroup all_algebra.
 From Coq Require Import Reals QArith.
 From TJ Require Import Model.RVCurve Proofs.RVCurveProofs Proofs.KernelAlg Proofs.CompleteSquare Proofs.RealGauss.
